@@ -846,6 +846,9 @@ func (f *Field) newView(path, name string) *view {
 
 // deleteView removes the view from the field.
 func (f *Field) deleteView(name string) error {
+	f.mu.Lock()
+	defer f.mu.Unlock()
+
 	view := f.viewMap[name]
 	if view == nil {
 		return ErrInvalidView
@@ -927,7 +930,10 @@ func (f *Field) ClearBit(rowID, colID uint64) (changed bool, err error) {
 	viewName := viewStandard
 
 	// Retrieve view. Exit if it doesn't exist.
+	f.mu.RLock()
 	view, present := f.viewMap[viewName]
+	viewN := len(f.viewMap)
+	f.mu.RUnlock()
 	if !present {
 		return changed, errors.Wrap(err, "clearing missing view")
 
@@ -939,7 +945,7 @@ func (f *Field) ClearBit(rowID, colID uint64) (changed bool, err error) {
 	} else if v {
 		changed = v
 	}
-	if len(f.viewMap) == 1 { // assuming no time views
+	if viewN == 1 { // assuming no time views
 		return changed, nil
 	}
 	lastViewNameSize := 0
@@ -979,9 +985,10 @@ func groupCompare(a, b string, offset int) (lt, eq bool) {
 }
 
 func (f *Field) allTimeViewsSortedByQuantum() (me []*view) {
-	me = make([]*view, len(f.viewMap))
 	prefix := viewStandard + "_"
 	offset := len(viewStandard) + 1
+	f.mu.RLock()
+	me = make([]*view, len(f.viewMap))
 	i := 0
 	for _, v := range f.viewMap {
 		if len(v.name) > offset && strings.Compare(v.name[:offset], prefix) == 0 { // skip non-time views
@@ -989,6 +996,7 @@ func (f *Field) allTimeViewsSortedByQuantum() (me []*view) {
 			i++
 		}
 	}
+	f.mu.RUnlock()
 	me = me[:i]
 	year := strings.Index(me[0].name, "_") + 4
 	month := year + 2
